@@ -47,6 +47,7 @@ RealPri(P) == [i \in 1..Len(P.pf) |->
 ModelBk == {<<b, bk[b]>> : b \in {x \in Buckets : bk[x] # 0}}
 RealBk(e) == {<<e.bk[i][1], e.bk[i][2]>> : i \in 1..Len(e.bk)}
 ModelFl == [i \in 1..Len(flfile) |-> <<flfile[i].off, flfile[i].sz>>]
+ModelGc == [i \in 1..Len(flgc.l) |-> <<flgc.l[i].off, flgc.l[i].sz>>]
 
 \* buckets of the records the real flush appended, in file order
 \* the records a flush appended = the records of the real files that lie behind the model's current end
@@ -62,6 +63,7 @@ Drift(e) ==
   \cup (IF ModelPri' # RealPri(e.st) THEN {"M-primary-files"} ELSE {})
   \cup (IF ModelBk' # RealBk(e) THEN {"M-bucket-table"} ELSE {})
   \cup (IF ModelFl' # e.st.fl THEN {"M-freelist"} ELSE {})
+  \cup (IF ModelGc' # e.st.gc THEN {"M-gc-file"} ELSE {})
   \cup (IF pfirst' # e.st.ph.first THEN {"M-primary-first-file"} ELSE {})
   \cup (IF ifirst' # e.st.ih.first THEN {"M-index-first-file"} ELSE {})
 
@@ -88,7 +90,7 @@ TNext ==
                           order == IF new \in Perms(Dirty) THEN new ELSE CHOOSE o \in Perms(Dirty) : TRUE
                       IN FlushWith(order)
               /\ Flag(e, Drift(e))
-         [] e.e = "prigc" -> CPriGC(e.lowUse) /\ Flag(e, Drift(e))
+         [] e.e = "prigc" -> CPriGC(e.lowUse, e.deadline) /\ Flag(e, Drift(e))
          [] e.e = "idxgc" -> CIdxGC(e.scanFree) /\ Flag(e, Drift(e))
          \* Close + reopen (same bit size): the commit's flush order is bound from the projection, the recovery path from the
          \* event; the model's files, table (snapshot or rescan) and freelist are compared with the reopened store's
